@@ -1,4 +1,6 @@
 import Proofs.NamespaceC11
+import Proofs.NamespaceBook
+import Proofs.NamespaceExample
 /-! C11 - port-ID and minor-version consistency: the checks of `_namespace.py` (`Ns.checkPortIdCollisions`,
     `Ns.checkMinorVersions`, composed as `Ns.crossCheck` exactly like `_complete_read_function` does) accept a list of
     definitions iff the declarative rule `Ns.Spec.consistent` (Proofs/NamespaceC11.lean, written from the property text)
@@ -41,6 +43,21 @@ theorem C11.rejected_invalid (direct all : List TyInfo) (hd : Spec.distinctKeys 
 theorem C11.duplicate_key_hits_assert (a : TyInfo) : checkMinorVersions [a, a] = .error .assertion := by
   simp [checkMinorVersions, List.zipIdx, firstErr, minorPair]
 
+/-- End to end: whatever `read_namespace` returns satisfies the declarative rule - no two returned types (direct or
+    transitive) have the same (name, version), the direct types respect the port-ID rule and all returned types the
+    minor-version rule.  No hypothesis on the enumeration: a result in which two types share a (name, version) does not
+    pass the minor-version check (`C11.duplicate_key_hits_assert`). -/
+theorem C11.result_consistent (files : List FileEntry) (root : Path) (lookups : List Path) (ac au : Bool) (d t : List Ty)
+    (p : List Nat) (h : readNamespace files root lookups ac au = ⟨.ok (d, t), p⟩) :
+    Spec.distinctKeys ((t ++ d).map Ty.info) ∧ Spec.consistent (d.map Ty.info) ((t ++ d).map Ty.info) :=
+  crossCheck_ok_consistent (readNamespace_crossCheck h)
+
+/-- ... and the same for `read_files` -/
+theorem C11.result_consistent_files (files targets : List FileEntry) (roots lookups : List Path) (au : Bool) (d t : List Ty)
+    (p : List Nat) (h : readFiles files targets roots lookups au = ⟨.ok (d, t), p⟩) :
+    Spec.distinctKeys ((t ++ d).map Ty.info) ∧ Spec.consistent (d.map Ty.info) ((t ++ d).map Ty.info) :=
+  crossCheck_ok_consistent (readFiles_crossCheck h)
+
 section NonVacuity
 private def sec (s : Bool) (e : Nat) : SecInfo := ⟨s, e, []⟩
 private def ti (n : String) (ma mi : Nat) (p : Option Nat) (srv : Bool) (a b : SecInfo) : TyInfo :=
@@ -63,4 +80,6 @@ example : Spec.distinctKeys bad1 ∧ ¬ Spec.consistent bad1 bad1 :=
 private def bad2 : List TyInfo := [ti "ns.A" 1 0 (some 6200) false (sec true 8) (sec true 8), ti "ns.A" 2 0 (some 6200) false (sec true 8) (sec true 8)]
 private def bad3 : List TyInfo := [ti "ns.S" 1 0 none true (sec true 0) (sec false 64), ti "ns.S" 1 1 none true (sec true 0) (sec false 72)]
 example : crossCheck bad2 bad2 = .error .portCollision ∧ crossCheck bad3 bad3 = .error .minorExtent := by decide
+open Ns.Example in
+example := C11.result_consistent_files Example.fs [eA] [] [["w", "other"]] false [TA] [TB] [] evalFiles
 end NonVacuity
